@@ -5,6 +5,7 @@ import (
 	"os"
 	"sort"
 	"strings"
+	"verif/world"
 
 	"github.com/openziti/storage/ast"
 	"github.com/openziti/storage/boltz"
@@ -19,6 +20,7 @@ import (
 func c15Views(rep *report.Report, tier string) {
 	dir := explore.TmpDir("c15views")
 	defer os.RemoveAll(dir)
+	c15KeyCollision(rep, dir)
 	ids := []string{"#p1", "#p2", "#p3", "#p4"}
 	names := []string{"A", "B", "C", "D"}
 	kinds := []string{"absent", "plain", "mgr", "prof"}
@@ -155,4 +157,55 @@ func c15Views(rep *report.Report, tier string) {
 		_ = os.Remove(fmt.Sprintf("%s/v%d.db", dir, code))
 		rep.Count("view_datasets", 1)
 	}
+}
+
+// c15KeyCollision: an extended child store whose own field is stored under a key the parent also uses (in the child's
+// own bucket). Looking a parent-only entity up through the child store must not present the parent's value as
+// the child's; an entity with child data shows both values, each from its own bucket.
+func c15KeyCollision(rep *report.Report, dir string) {
+	devices := world.NewStore(&world.Spec{EntityType: "devices", BasePath: []string{"root"}, Fields: []world.Field{{Name: "name", Kind: world.KString}}})
+	devices.AddIdSymbol("id", ast.NodeTypeString)
+	sensors := world.NewStore(&world.Spec{Parent: devices, ChildPath: []string{"ext", "sensor"}, Extended: true, Fields: []world.Field{
+		{Name: "name", Kind: world.KString}, {Name: "probe", Key: "name", Kind: world.KStringP, Child: true}}})
+	db, err := boltz.Open(dir+"/collision.db", "root")
+	if err != nil {
+		panic(err)
+	}
+	defer db.Close()
+	if err := db.Update(nil, func(ctx boltz.MutateContext) error {
+		if err := devices.Create(ctx, world.NewRec("devices", "d1").With("name", "P1")); err != nil {
+			return err
+		}
+		return sensors.Create(ctx, world.NewRec("devices", "d2").With("name", "P2").With("probe", "C2"))
+	}); err != nil {
+		panic(err)
+	}
+	_ = db.View(func(tx *bbolt.Tx) error {
+		rep.Count("evaluations", 1)
+		for _, c := range []struct {
+			id, name string
+			probe    interface{}
+		}{{"d1", "P1", nil}, {"d2", "P2", "C2"}} {
+			for _, route := range []string{"FindById", "LoadById"} {
+				var e *world.Rec
+				var err error
+				if route == "FindById" {
+					e, _, err = sensors.FindById(tx, c.id)
+				} else {
+					e, err = sensors.LoadById(tx, c.id)
+				}
+				if err != nil || e == nil {
+					rep.Violation("C15|key-collision|lookup|"+c.id, fmt.Sprintf("extended child store %s(%s): entity=%v err=%v", route, c.id, e, err), nil)
+					continue
+				}
+				if e.F["name"] != c.name || e.F["probe"] != c.probe {
+					rep.Violation("C15|key-collision|"+route+"|"+c.id, fmt.Sprintf("extended child store %s(%s): shared field name=%v (expected %q), child field stored under the same key in the child's bucket = %v (expected %v)", route, c.id, e.F["name"], c.name, e.F["probe"], c.probe), map[string]interface{}{"id": c.id, "route": route})
+				}
+			}
+			if p, found, _ := devices.FindById(tx, c.id); !found || p.F["name"] != c.name {
+				rep.Violation("C15|key-collision|parent|"+c.id, fmt.Sprintf("parent store FindById(%s) = %v", c.id, p), nil)
+			}
+		}
+		return nil
+	})
 }
